@@ -107,7 +107,7 @@ ASSUMPTIONS = ['timers of one libev hub fire in deadline order and gevent.sleep(
                'diagnostic only: the name `Timeout` in slimta.smtp.server, slimta.relay.smtp.client/lmtpclient, '
                'slimta.relay.pipe is bound to a recording subclass of gevent.Timeout (set VERIF_C14_NOTRACE=1 to '
                'run without it)']
-REQUIRED_HITS = ['server-stall-judged', 'server-421-checked', 'server-trickle-judged', 'edge-stall-judged',
+REQUIRED_HITS = ['http-reuse-judged', 'relay-reuse-judged', 'server-stall-judged', 'server-421-checked', 'server-trickle-judged', 'edge-stall-judged',
                  'relay-stall-judged', 'relay-trickle-judged', 'relay-error-class-checked',
                  'relay-client-greenlet-checked', 'pipe-stall-judged', 'http-stall-judged',
                  'control-succeeded']
@@ -572,6 +572,7 @@ def run_server_control(sub):
 RELAY_STALL_STAGES = ['connect', 'banner', 'ehlo', 'starttls', 'tlshandshake', 'tls-immediate-handshake', 'auth',
                       'mail', 'rcpt0', 'data', 'eod0', 'rset', 'quit']
 RESULT_ALREADY_SET = ('rset', 'quit')     # the attempt's outcome is decided before these steps
+RELAY_IDLE = 5.0       # idle_timeout of re-use cases: only has to outlast the gap between two attempts
 _PARTIAL = {'banner': b'220 downstream rea', 'ehlo': b'250-downstream greets you\r\n250-8BITMIME\r\n250 PIPELI',
             'starttls': b'220 2.0.0 go ah', 'auth': b'235 2.7.0 authentica', 'mail': b'250 2.1.0 sender o',
             'rcpt0': b'250 2.1.5 recipient o', 'rcpt1': b'250 2.1.5 recipient o', 'data': b'354 go ah',
@@ -1065,6 +1066,182 @@ def run_http_case(sub):
             listener.close()
 
 
+# ---------------------------------------------------------------- HTTP relay, connection re-use
+
+HTTP_REUSE = ['previous-complete+next-silent', 'previous-complete+next-trickle', 'previous-body-unfinished',
+              'previous-body-trickled', 'previous-body-short-then-closed']
+HTTP_IDLE = 5.0        # only has to outlast the gap between the two attempts; never part of a verdict
+
+
+def run_http_reuse_case(sub):
+    """HttpRelay(timeout=T, idle_timeout=I): message 1 is answered with complete headers (the attempt returns) and
+    a body that is complete / never finished / trickled / short-then-closed; message 2 is picked up by the same idle
+    client on the same connection.  Whatever is still owed from message 1 and whatever the server does with message
+    2 (silent, trickle), attempt 2 must end within the timer chain.  pattern 'reuse-slow-ok' is the control: both
+    answers delayed by T/2, both must succeed on ONE connection."""
+    res = Result()
+    T = sub['T']
+    pattern = sub['pattern']
+    control = pattern == 'reuse-slow-ok'
+    first, _, second = pattern.partition('+next-')
+    stalled = Event()
+    info = {'conns': 0, 'requests': [], 'trickled': 0}
+    head = b'HTTP/1.1 200 OK\r\nX-Smtp-Reply: 250; message="2.6.0 accepted"\r\nContent-Length: %d\r\n\r\n'
+
+    def read_request(sock, buf):
+        while b'\r\n\r\n' not in buf:
+            d = sock.recv(65536)
+            if not d:
+                return None, b''
+            buf += d
+        hdr, _, rest = buf.partition(b'\r\n\r\n')
+        n = 0
+        for ln in hdr.split(b'\r\n'):
+            if ln.lower().startswith(b'content-length:'):
+                n = int(ln.split(b':', 1)[1])
+        while len(rest) < n:
+            d = sock.recv(65536)
+            if not d:
+                return None, b''
+            rest += d
+        return hdr, rest[n:]
+
+    def silent(sock):
+        try:
+            while sock.recv(65536):
+                pass
+        except (OSError, IOError):
+            pass
+
+    def trickle(sock, data):
+        for i in range(len(data)):
+            sock.sendall(data[i:i + 1])
+            info['trickled'] += 1
+            stalled.set()
+            gevent.sleep(T / 4.0)
+
+    def handler(sock, addr):
+        info['conns'] += 1
+        conn = info['conns']
+        nreq = 0
+        buf = b''
+        try:
+            while True:
+                hdr, buf = read_request(sock, buf)
+                if hdr is None:
+                    return
+                nreq += 1
+                info['requests'].append((conn, nreq))
+                if control:
+                    gevent.sleep(T / 2.0)
+                    sock.sendall(head % 2 + b'ok')
+                elif nreq == 1:
+                    if first == 'previous-complete':
+                        sock.sendall(head % 2 + b'ok')
+                    elif first == 'previous-body-unfinished':
+                        sock.sendall(head % 64 + b'only ten b')
+                        stalled.set()
+                    elif first == 'previous-body-trickled':
+                        sock.sendall(head % 200)
+                        trickle(sock, b'b' * 200)
+                    elif first == 'previous-body-short-then-closed':
+                        sock.sendall(head % 64 + b'only ten b')
+                        return
+                else:
+                    if second == 'silent':
+                        stalled.set()
+                        silent(sock)
+                        return
+                    elif second == 'trickle':
+                        trickle(sock, head % 2 + b'X-Padding: ' + b'p' * 80 + b'\r\n' + b'ok')
+                    else:
+                        sock.sendall(head % 2 + b'ok')
+        except (OSError, IOError):
+            pass
+        finally:
+            sock.close()
+
+    srv = StreamServer(('127.0.0.1', 0), handler)
+    srv.start()
+    relay = HttpRelay('http://127.0.0.1:%d/deliver' % srv.server_port, timeout=T, idle_timeout=HTTP_IDLE,
+                      ehlo_as='relay.c14.test')
+    hclients = []
+    orig_add = relay.add_client
+
+    def add_client():
+        c = orig_add()
+        hclients.append(c)
+        return c
+    relay.add_client = add_client
+    out1, out2 = {}, {}
+    gs = []
+    try:
+        g1 = _attempt(relay, _envelope(sub), out1)
+        gs.append(g1)
+        g1.join(timeout=STEP_WATCHDOG)
+        res.detail.update({'T': T, 'pattern': pattern, 'idle_timeout': HTTP_IDLE, 'first_outcome': _outcome(out1)})
+        if not _is_success(out1):
+            if control:
+                res.ok = False
+                return res
+            res.inconc = 'stall-stage-not-reached: first http attempt did not succeed (%s)' % _outcome(out1)
+            return res
+        if first in ('previous-body-unfinished', 'previous-body-trickled'):
+            stalled.wait(STEP_WATCHDOG)           # what is owed from message 1 is now being withheld
+        started = Event()
+        g2 = _attempt(relay, _envelope(sub, 1), out2, started)
+        gs.append(g2)
+        if control:
+            g2.join(timeout=STEP_WATCHDOG)
+            res.detail.update({'second_outcome': _outcome(out2), 'connections': info['conns'],
+                               'requests_seen': list(info['requests'])})
+            if not out2.get('done'):
+                res.inconc = 'watchdog: control attempt did not end'
+            elif info['conns'] != 1 and _is_success(out2):
+                res.inconc = 'stall-stage-not-reached: control connection was not re-used'
+            res.ok = _is_success(out2)
+            return res
+        started.wait(STEP_WATCHDOG)
+        if first == 'previous-complete':
+            gevent.wait([stalled, g2], timeout=STEP_WATCHDOG, count=1)
+            if not stalled.is_set():
+                res.inconc = 'stall-stage-not-reached: second http attempt %s before the server stalled' % _outcome(out2)
+                return res
+        else:
+            settle()                              # the idle client has picked the request up (loop iterations)
+        chain_sleep(T)
+        done = bool(out2.get('done'))
+        res.detail.update({'second_attempt_ended': done, 'second_outcome': _outcome(out2),
+                           'connections': info['conns'], 'requests_seen': list(info['requests']),
+                           'bytes_trickled': info['trickled'], 'clients_created': len(hclients),
+                           'client_greenlets_alive': len([c for c in hclients if not c.dead]),
+                           'harness_slept_at_least_after_stall_began': K * T})
+        if info['conns'] != 1 or len(hclients) != 1:
+            res.inconc = 'stall-stage-not-reached: the connection was not re-used (%d connections, %d clients)' \
+                % (info['conns'], len(hclients))
+            return res
+        res.hits.append('http-stall-judged')
+        res.hits.append('http-reuse-judged')
+        res.obs.append(('http-outcome', (pattern, _outcome(out2)[:40])))
+        if not done:
+            res.detail['blocked_at'] = where_blocked(g2)
+            res.detail['client_blocked_at'] = [where_blocked(c) for c in hclients if not c.dead]
+            inner = [b[-1] for b in res.detail['client_blocked_at'] if b]
+            res.failed.append(('still-blocked',
+                               'second HttpRelay(timeout=%gs, idle_timeout set).attempt on the re-used connection still '
+                               'blocked after %d*T (%s); client blocked at %s'
+                               % (T, K, pattern, inner[0] if inner else 'no client greenlet alive')))
+        elif first != 'previous-body-short-then-closed' and not _is_transient(out2):
+            res.failed.append(('wrong-error-class', 'second HTTP attempt that timed out ended with "%s", not a transient '
+                               'failure' % _outcome(out2)))
+        return res
+    finally:
+        for g in gs:
+            g.kill(block=False)
+        relay.kill()
+        srv.stop(timeout=0)
+
+
 # ---------------------------------------------------------------- case generation
 
 def _key(sub):
@@ -1120,6 +1297,15 @@ def all_subcases(tier, seed):
         for pattern in ('never-accepted', 'never-answers', 'partial-status-line', 'headers-unfinished', 'trickle-headers'):
             add(stall, side='http', stage='response' if pattern != 'never-accepted' else 'connect', pattern=pattern,
                 nrcpt=1, T=T)
+        for pattern in HTTP_REUSE:
+            add(stall, side='http', stage='reuse', pattern=pattern, nrcpt=1, T=T)
+        # SMTP / LMTP connection re-use (idle_timeout set): message 1 succeeds, the next hop goes silent at a step of
+        # message 2 on the same connection, or sends half a line unasked while idle (the _check_server_timeout probe)
+        for proto in ('smtp', 'lmtp'):
+            for pl in (False, True):
+                for s2 in (('mail', 'eod0', 'idle-probe') if tier == 'quick' else ('idle-probe',)):
+                    add(stall, side='relay', proto=proto, pipelining=pl, nrcpt=1, stage='none', pattern='stall',
+                        T=T, idle=RELAY_IDLE, second={'stage': s2, 'mode': 'reuse'})
         if tier == 'thorough':
             firsts = ['connect', 'banner', 'ehlo', 'mail', 'rcpt0', 'data', 'eod0', 'rset', 'quit']
             seconds = ['connect', 'banner', 'ehlo', 'mail', 'rcpt0', 'data', 'eod0', 'rset', 'quit']
@@ -1133,7 +1319,7 @@ def all_subcases(tier, seed):
                                 T=T, second={'stage': s2, 'mode': 'reconnect'})
                     for s2 in ('mail', 'rcpt0', 'data', 'eod0', 'rset', 'quit'):
                         add(stall, side='relay', proto=proto, pipelining=pl, nrcpt=1, stage='none', pattern='stall',
-                            T=T, idle=8 * T, second={'stage': s2, 'mode': 'reuse'})
+                            T=T, idle=RELAY_IDLE, second={'stage': s2, 'mode': 'reuse'})
     for T in TS_SLOW[tier]:
         add(control, side='server', stage='all-commands', pattern='slow-client', T=T)
         for proto in ('smtp', 'lmtp'):
@@ -1144,6 +1330,7 @@ def all_subcases(tier, seed):
                 add(control, side='relay', proto=proto, pipelining=pl, nrcpt=1, stage='all-stages', pattern='slow-replies',
                     T=T, tls=True, auth=True)
         add(control, side='http', stage='response', pattern='slow-ok', nrcpt=1, T=T)
+        add(control, side='http', stage='reuse', pattern='reuse-slow-ok', nrcpt=1, T=T)
     rnd.shuffle(stall)
     return stall, control
 
@@ -1188,7 +1375,7 @@ def mechanism(sub, clause, detail=None, label='first'):
 
 
 def is_control(sub):
-    return sub['pattern'] in ('slow-client', 'slow-replies', 'slow-ok')
+    return sub['pattern'] in ('slow-client', 'slow-replies', 'slow-ok', 'reuse-slow-ok')
 
 
 def run_sub(sub):
@@ -1198,6 +1385,8 @@ def run_sub(sub):
             return run_server_control(sub)
         if side == 'relay':
             return run_relay_control(sub)
+        if sub['stage'] == 'reuse':
+            return run_http_reuse_case(sub)
         return run_http_case(sub)
     if side in ('server', 'edge'):
         return run_server_case(sub)
@@ -1206,7 +1395,7 @@ def run_sub(sub):
     if side == 'pipe':
         return run_pipe_case(sub)
     if side == 'http':
-        return run_http_case(sub)
+        return run_http_reuse_case(sub) if sub['stage'] == 'reuse' else run_http_case(sub)
     raise ValueError(side)
 
 
